@@ -168,8 +168,9 @@ def r2_binning(ctx):
     for p, pos, size in ((pv, "position_ver", "self._geo.pixel_vert_size"), (ph, "position_hor", "self._geo.pixel_horz_size")):
         a = expand(f, base(args[p]))
         txt = norm(a)
-        want = f"np.floor_divide(self.get_frame_values(quantity='{pos}'), {size}).astype(int)"
-        okp = txt == want
+        src = f"self.get_frame_values(quantity='{pos}')"
+        wants = {f"np.floor_divide({src}, {size}).astype(int)", f"np.floor({src} / {size}).astype(int)", f"({src} // {size}).astype(int)", f"np.floor_divide({src}, {size}).astype(np.int64)"}
+        okp = txt in wants
         ctx.check(okp, f.qual + f"#{p}", f"{p} = floor({pos} / {size.split('.')[-1]})" if okp else f"{p} is computed as {txt[:110]}", where=f, node=c)
     n = expand(f, base(args[num_p]))
     okn = norm(n) == "self.get_frame_values(quantity='number')"
@@ -258,7 +259,7 @@ def r3_representation_switch(ctx):
     wz = local_defs(cv, "where_non_zero")
     ok = len(wz) == 1 and norm(wz[0][1]) == "np.where(charge_number > 0.0)" or (len(wz) == 1 and norm(wz[0][1]) == "np.where(charge_number > 0)")
     cn = [norm(v) for _, v in local_defs(cv, "charge_number") if v is not None]
-    ok = ok and cn[:1] == ["array.flatten()"] and "charge_number[where_non_zero]" in cn
+    ok = ok and cn[:1] and cn[0] in ("array.flatten()", "array.ravel()", "array.reshape(-1)", "array.flatten(order='C')", "array.ravel(order='C')") and "charge_number[where_non_zero]" in cn
     ctx.check(ok, cv.qual + "#mask", "positive pixels selected from the row-major flattened array" if ok else "pixel selection changed", where=cv, node=wz[0][0] if wz else cv.node)
     cc = [c for c in calls_in(cv.node) if call_name(c).endswith("create_charges")]
     ok = len(cc) == 1
